@@ -674,6 +674,43 @@ def native_delimited_roundtrip():
         except Exception as e:  # noqa
             failures.append(dict(key="writer-delimited-roundtrip", what="dialect %s raised %s: %s" % (name, type(e).__name__, e),
                                  args=dict(dialect=name)))
+    # fixed format through the file system: Writer on a path, read back by path and by stream, every line delimiter
+    import os
+    import shutil
+    import tempfile
+    tmpd = tempfile.mkdtemp(prefix="c14fixed")
+    try:
+        for delim in ("lf", "cr", "crlf", "any", "none"):
+            for header in (0, 1):
+                n += 1
+                text = FIXED_CID % (delim, header)
+                table = [["hd", "r"]] * header + [["ab", "c"], ["toolong", "x"], ["d", ""], ["", "y"], ["e f", "g"], ["h\n", "i"]]
+                fpath = os.path.join(tmpd, "out_%s_%d.txt" % (delim, header))
+                try:
+                    accepted = []
+                    with validio.Writer(interface.create_cid_from_string(text), fpath) as fw:
+                        for k, row in enumerate(table):
+                            try:
+                                fw.write_row(row)
+                                if k >= header:
+                                    accepted.append(row)
+                            except errors.DataError:
+                                pass
+                    with open(fpath, "r", newline="", encoding="cp1252") as f:
+                        content = f.read()
+                    want = [[a.ljust(2), b.ljust(1)] for a, b in accepted]
+                    by_path = list(validio.rows(interface.create_cid_from_string(text), fpath, on_error="yield"))
+                    by_stream = list(validio.rows(interface.create_cid_from_string(text), io.StringIO(content, newline=""), on_error="yield"))
+                    strip = lambda rows: [[c.rstrip(" ") for c in r] if isinstance(r, list) else r for r in rows]  # noqa
+                    if strip(by_path) != strip(want) or strip(by_stream) != strip(want):
+                        failures.append(dict(key="writer-fixed-roundtrip", what="fixed, line delimiter %s, header %d: rows %r written to a path "
+                                             "(file holds %r) read back by path as %r, by stream as %r" % (delim, header, accepted, content, by_path, by_stream),
+                                             args=dict(delimiter=delim, header=header)))
+                except Exception as e:  # noqa
+                    failures.append(dict(key="writer-fixed-roundtrip", what="fixed, line delimiter %s, header %d raised %s: %s" % (
+                        delim, header, type(e).__name__, e), args=dict(delimiter=delim, header=header)))
+    finally:
+        shutil.rmtree(tmpd, ignore_errors=True)
     return dict(count=n, failures=failures, samples=[])
 
 
